@@ -2,6 +2,7 @@ package routing
 
 import (
 	"fmt"
+	"math/bits"
 	"net/netip"
 )
 
@@ -45,10 +46,13 @@ func (g *Gateway) String() string {
 	return fmt.Sprintf("{addr: %s, weight: %d}", g.addr, g.weight)
 }
 
-// Divide and round to nearest integer
-func divideAndRound(v uint64, d uint64) uint64 {
-	var tmp uint64 = v + d/2
-	return tmp / d
+// shiftDivideAndRound returns (v << 31) / d rounded to the nearest integer. The intermediate value is kept in
+// 128 bits so that large total weights cannot overflow it. Requires v <= d and d > 0.
+func shiftDivideAndRound(v uint64, d uint64) uint64 {
+	hi, lo := v>>33, v<<31
+	lo, carry := bits.Add64(lo, d/2, 0)
+	q, _ := bits.Div64(hi+carry, lo, d)
+	return q
 }
 
 // Implements Hash-Threshold mapping, equivalent to the implementation in the linux kernel.
@@ -64,7 +68,7 @@ func CalculateBucketsForGateways(gateways []Gateway) {
 	var loopWeight int = 0
 	for i := range gateways {
 		loopWeight += gateways[i].weight
-		gateways[i].bucketUpperBound = int(divideAndRound(uint64(loopWeight)<<31, uint64(totalWeight))) - 1
+		gateways[i].bucketUpperBound = int(shiftDivideAndRound(uint64(loopWeight), uint64(totalWeight))) - 1
 	}
 
 }
